@@ -237,6 +237,16 @@ def m_eq(ex, args, callee):
 
 def lex_cmp(ex, op, a, b):
     a, b = dv(a), dv(b)
+    if (isinstance(a, SB) and isinstance(b, (SB, str))) or (isinstance(b, SB) and isinstance(a, str)):
+        # str / String order: byte-wise lexicographic, a proper prefix sorts first
+        xs, ys = sb_bytes(a), sb_bytes(b)
+        b8_ = lambda v: v if z3.is_expr(v) else z3.BitVecVal(v, 8)
+        n = min(len(xs), len(ys))
+        eq_upto = lambda i: zand(*[b8_(xs[j]) == b8_(ys[j]) for j in range(i)])
+        lt = zor(*([zand(eq_upto(i), z3.ULT(b8_(xs[i]), b8_(ys[i]))) for i in range(n)] + [zand(eq_upto(n), len(xs) < len(ys))]))
+        gt = zor(*([zand(eq_upto(i), z3.UGT(b8_(xs[i]), b8_(ys[i]))) for i in range(n)] + [zand(eq_upto(n), len(xs) > len(ys))]))
+        eq = zand(eq_upto(n), len(xs) == len(ys))
+        return {'Lt': lt, 'Gt': gt, 'Le': zor(lt, eq), 'Ge': zor(gt, eq)}[op]
     if isinstance(a, Tup) and isinstance(b, Tup):
         xs, ys = [c.v for c in a.items], [c.v for c in b.items]
         if not xs: return op in ('Le', 'Ge')
